@@ -40,6 +40,7 @@ var (
 	sharedNames = map[string]bool{}
 	writtenVars = map[*types.Var]bool{}
 	unsupported []string
+	unhooked    []string
 	root        string
 	stats       = map[string]int{}
 )
@@ -109,7 +110,7 @@ func isMutex(t types.Type) bool {
 		return false
 	}
 	p := n.Obj().Pkg().Path()
-	return (p == "sync" || p == "verif/simrt") && (n.Obj().Name() == "RWMutex" || n.Obj().Name() == "Mutex" || n.Obj().Name() == "Once")
+	return (p == "sync" || p == "verif/simrt") && (n.Obj().Name() == "RWMutex" || n.Obj().Name() == "Mutex" || n.Obj().Name() == "Once" || n.Obj().Name() == "Pool")
 }
 
 // closeShared adds every module struct type reachable through fields.
@@ -322,7 +323,9 @@ func (r *rewriter) hooksIn(e ast.Node) []ast.Stmt {
 				return true
 			}
 			if !pure(x.X) {
-				r.unsupported(x.Pos(), "shared field reached through an expression with calls (x()."+x.Sel.Name+")")
+				// re-evaluating the base would repeat its calls: this access is left unhooked (reported, not fatal:
+				// a race needs two accesses and the other side is normally a plain selection)
+				unhooked = append(unhooked, "x()."+x.Sel.Name+" at "+posStr(x.Pos()))
 				return true
 			}
 			out = append(out, r.accStmts(x, tv.Type, x.Pos())...)
@@ -537,7 +540,7 @@ func (r *rewriter) rewriteFile() {
 			switch pn.Imported().Path() {
 			case "sync":
 				switch x.Sel.Name {
-				case "RWMutex", "Mutex", "Once":
+				case "RWMutex", "Mutex", "Once", "Pool":
 					id.Name = "simrt"
 					r.usedRT = true
 					stats["sync"]++
@@ -765,6 +768,10 @@ func main() {
 		wv = append(wv, v.Pkg().Name()+"."+v.Name())
 	}
 	sort.Strings(wv)
+	if len(unhooked) > 0 {
+		sort.Strings(unhooked)
+		fmt.Printf("instrument: %d shared-field accesses through call expressions left unhooked, e.g. %s\n", len(unhooked), unhooked[0])
+	}
 	fmt.Printf("instrumented: shared types %v; package variables written after init %v; hooks: %v\n", sn, wv, stats)
 }
 
